@@ -7,6 +7,7 @@ import (
 	"net/url"
 	"strings"
 	"sync"
+	"sync/atomic"
 	"time"
 
 	"github.com/zitadel/saml/pkg/provider"
@@ -532,6 +533,105 @@ func c07AbortedNeighbour(r *core.Run, idx int, rng *rand.Rand) {
 	r.Count("accepted_beside_aborted_neighbour", 1)
 }
 
+// c07ConcurrentSigned: several service providers send correctly signed requests (redirect and POST binding, both
+// algorithms) to one provider at the same time. Verification state of one request must not disturb another one's.
+func c07ConcurrentSigned(r *core.Run, idx int, rng *rand.Rand) {
+	const wl = "concurrent_signed_requests"
+	e := env.Static(env.Opts{WantSigned: []string{"", "true"}[idx%2]})
+	const C = 8
+	per := 24
+	sps := make([]*spsim.SPDesc, 4)
+	for i := range sps {
+		sps[i] = stdSP(i)
+		sps[i].AuthnRequestsSigned = "true"
+		mustRegister(e.W, sps[i], fmt.Sprintf("app%d", i))
+	}
+	type job struct {
+		method, query, body, kind string
+	}
+	// everything is drawn and signed before anything runs: the generator is not shared
+	jobs := make([][]job, C)
+	for c := 0; c < C; c++ {
+		sp := sps[c%len(sps)]
+		pair := keys.Get(fmt.Sprintf("sp%d", c%len(sps)))
+		for k := 0; k < per; k++ {
+			a := validAuthn(rng, sp)
+			alg := []string{spsim.AlgRSASHA1, spsim.AlgRSASHA256}[(c+k)%2]
+			if idx%3 == 0 {
+				alg = spsim.AlgRSASHA256 // all clients use one algorithm
+			}
+			x := a.XML(rng)
+			if k%3 != 2 {
+				m := &spsim.RedirectMsg{Param: "SAMLRequest", Value: spsim.DeflateB64(x), RelayState: fmt.Sprintf("rs-%d-%d", c, k), HasRelay: true, SigAlg: alg, Pct: spsim.PctGo}
+				if err := m.Sign(pair.RSA); err != nil {
+					panic(err)
+				}
+				jobs[c] = append(jobs[c], job{"GET", m.RawQuery(), "", "authn_redirect_signed_" + alg[strings.LastIndexAny(alg, "#")+1:]})
+			} else {
+				sx, err := spsim.SignEnveloped(x, pair, spsim.XMLSignOpts{Alg: alg})
+				if err != nil {
+					panic(err)
+				}
+				jobs[c] = append(jobs[c], job{"POST", "", spsim.FormBody("SAMLRequest", spsim.B64([]byte(sx))), "authn_post_signed"})
+			}
+		}
+	}
+	type bad struct {
+		kind, why string
+		obs       any
+	}
+	var mu sync.Mutex
+	var bads []bad
+	var accepted, inflight, maxInflight atomic.Int64
+	var wg sync.WaitGroup
+	start := make(chan struct{})
+	for c := 0; c < C; c++ {
+		wg.Add(1)
+		go func(c int) {
+			defer wg.Done()
+			<-start
+			for _, j := range jobs[c] {
+				n := inflight.Add(1)
+				for {
+					m := maxInflight.Load()
+					if n <= m || maxInflight.CompareAndSwap(m, n) {
+						break
+					}
+				}
+				call := e.Do(env.Req{Method: j.method, Path: env.PathSSO, Query: j.query, Body: j.body})
+				inflight.Add(-1)
+				if call.Panic != "" {
+					mu.Lock()
+					bads = append(bads, bad{"panic", call.Panic, call.Describe()})
+					mu.Unlock()
+				} else if !call.Accepted() {
+					mu.Lock()
+					bads = append(bads, bad{j.kind, fmt.Sprintf("status %d %s", call.D.Status, clipS(string(call.D.Body), 200)), call.Describe()})
+					mu.Unlock()
+				} else {
+					accepted.Add(1)
+				}
+			}
+		}(c)
+	}
+	close(start)
+	wg.Wait()
+	r.Eval(fmt.Sprintf("concurrent_signed|%d", idx))
+	r.Count("concurrent_signed_requests", int64(C*per))
+	r.Count("concurrent_signed_accepted", accepted.Load())
+	r.Max("max_in_flight_signed_requests", maxInflight.Load())
+	for i, b := range bads {
+		if i >= 5 {
+			break
+		}
+		clause := "conformant_signed_request_rejected_beside_others"
+		if b.kind == "panic" {
+			clause = "panic"
+		}
+		r.Violate(core.Violation{Clause: clause, Class: "concurrent_signed|" + b.kind, Reason: fmt.Sprintf("a correctly signed request was not accepted while %d clients were sending signed requests at the same time (%d of %d failed): %s", C, len(bads), C*per, b.why), Workload: wl, Index: idx, Observed: b.obs})
+	}
+}
+
 // c07EndpointQuery: the single-sign-on location the IdP advertises has a query of its own.
 func c07EndpointQuery(r *core.Run, idx int, rng *rand.Rand) {
 	const wl = "advertised_location_with_query"
@@ -614,6 +714,7 @@ func init() {
 					multiHostConcurrent(r, "multi_host_concurrent", idx, rng, false)
 				}},
 				{Name: "aborted_neighbour", N: c.Pick(60, 600), Fn: c07AbortedNeighbour},
+				{Name: "concurrent_signed_requests", N: c.Pick(12, 120), Workers: 2, Fn: c07ConcurrentSigned},
 				{Name: "signed_request_sequences", N: c.Pick(60, 600), Fn: c07SignedSequence},
 				{Name: "after_many_refusals", N: c.Pick(12, 60), Fn: c07AfterManyRefusals},
 				{Name: "advertised_location_with_query", N: c.Pick(120, 1200), Fn: c07EndpointQuery},
